@@ -5,7 +5,13 @@ ThrottleStreamIO, run under a virtual clock with exact rational (fractions.Fract
 limits (the code is duck-typed: every value it computes is an exact rational), plus a float stream
 on dyadic inputs; the property oracle (the cumulative inequality, evaluated on the REAL trace,
 independent of the model); the wiring facts of Gen/Wiring.v against object identities in a live
-loopback session; thorough tier: end-to-end loopback transfers with small limits in real time.
+loopback session; end-to-end in VIRTUAL time on harness/simnet.py (real Server + Client: limit levels x direction x
+sessions x timeouts on the limited side; login histories under a per-user limit); thorough tier: end-to-end
+loopback transfers with small limits in real time.
+
+Streams of the virtual-clock traces may carry read/write timeouts (the event loop's timers are virtual too), a socket
+I/O that outlasts its timeout ends in asyncio.TimeoutError (model event Abort), and ANY exception the implementation
+raises is an event of the trace ("raise": model says X, implementation raised E), never the end of the run.
 
 How the real code is driven (nothing in /repo is edited):
   * `asyncio.sleep` (looked up as `asyncio.sleep` by aioftp.common at call time) is replaced, while a
@@ -47,8 +53,13 @@ LEVEL_TEXT = (
     "C15_single_stream_bound, C15_no_excess_delay, C15_sys_projects, C15_tightest_governs_max, "
     "C15_tightest_governs_all, C15_sys_shared_bound, C15_independent, C15_clone_no_memory, C15_off_is_free(_one), "
     "C15_round_half_even_error are proved for every positive rational limit, every reset period >= 0, every number of "
-    "streams and throttle objects and every interleaving of evaluate/start/complete events with arbitrary block sizes "
-    ">= 0, durations and gaps (Closed under the global context). The bound that holds is L*(t - t0) + r/2 + blocks in "
+    "streams and throttle objects and every interleaving of evaluate/start/complete/ABORT events (an operation that ends "
+    "without append: timeout of the timed socket I/O, connection error, cancellation) with arbitrary block sizes "
+    ">= 0, durations and gaps (Closed under the global context). C15_timed_end_spec, C15_timeout_does_not_move_start, "
+    "C15_timed_op_in_model: every read/readline/write on a stream with ANY read/write timeout is such a trace, its I/O "
+    "starts at the throttles' wake time whatever the timeout. C15_per_user_shared_over_histories: after any history of "
+    "logins, re-logins and disconnects two live sessions hold the same per-user object iff they have the same user "
+    "(C15_per_user_pop_refuted otherwise). The bound that holds is L*(t - t0) + r/2 + blocks in "
     "flight with r <= (t - t0)/reset_rate resets; the literal bound of the property text (no r/2) is refuted "
     "(C15_literal_bound_refuted, finding F15). C15_wiring is a closed vm_compute obligation over facts regenerated "
     "from the source on every run. The model is hand-written; its tie is a differential correspondence (thousands of "
